@@ -677,7 +677,9 @@ def write_replay(prop, obligation, payload):
 
 def write_evidence(prop, tier, seed, obligations, wall, checker_cmds, trusted, assumptions, functions, violations,
                    extra=None):
-    counted = [o for o in obligations if o.kind == "complete" and o.engine in ("verus", "kani")]
+    # obligations matched by a committed known finding are reported separately (they are neither discharged
+    # nor counted among the obligations this run claims)
+    counted = [o for o in obligations if o.kind == "complete" and o.engine in ("verus", "kani") and o.status != "known"]
     bounded = [o for o in obligations if o.kind == "bounded"]
     scans = [o for o in obligations if o.engine == "scan"]
     cov = {
@@ -696,6 +698,7 @@ def write_evidence(prop, tier, seed, obligations, wall, checker_cmds, trusted, a
         "bounded_not_counted_as_proved": [o.to_json() for o in bounded],
         "syntactic_scans_not_counted": [o.to_json() for o in scans],
         "known_findings": [o.to_json() for o in obligations if o.status == "known"],
+        "known_finding_obligations": len([o for o in obligations if o.status == "known"]),
         "functions_under_contract": sorted(set(functions)),
         "obligation_list": [o.to_json() for o in counted],
         "samples": [o.to_json() for o in counted[:4]],
